@@ -180,6 +180,10 @@ pub(super) fn chain_animations<K: AnimationKey, T: Component>(
         }
         if let Some(next_key) = chain.next_keys.get(&selector.timeline_key) {
             selector.timeline_key = next_key.clone();
+            // This end has been consumed. Whatever key is current when the selection runs next has
+            // to be started from the beginning - also when the chain maps the key to itself, or
+            // when the key that just ended is assigned again before the selection has run.
+            selector.previous_key = None;
         }
     }
 }
